@@ -146,6 +146,14 @@ class Sem:
             if v.ty.kind == "opt":
                 raise Unsupported("coerce %r to %r %s" % (v.ty, ty, what))
             return SV(S.some(inner, self.coerce(v, inner, what).t), ty)
+        if v.ty == T.JREP and ty == T.VAL:
+            # a representation used as a value: the plain scalar it carries (the object case is excluded by the
+            # branch condition isinstance(x, dict) on the path)
+            return SV("(jplain %s)" % v.t, T.VAL)
+        if ty == T.JREP:
+            # a plain JSON scalar
+            S.sort(T.JREP)
+            return SV("(JPlain %s)" % self.box(v).t, T.JREP)
         if ty == T.VAL:
             return self.box(v)
         if v.ty == T.VAL:
@@ -241,6 +249,15 @@ class Sem:
                     return AND(*[self.py_eq(x, y, st) for x, y in zip(a.data, b.data)])
                 if a.kind == b.kind and a.kind in ("class", "func"):
                     return "true" if a.data is b.data else "false"
+                # type(x) compared with a builtin class (key of a table such as {float: ..., int: ...}):
+                # the exact-type test on the universal value (type(True) is bool, not int)
+                if "typeof" in (a.kind, b.kind) and ({a.kind, b.kind} - {"typeof"}) <= {"extclass", "builtin"} and a.kind != b.kind:
+                    tv, cl = (a, b) if a.kind == "typeof" else (b, a)
+                    ctor = {"builtins.float": "VFloat", "builtins.int": "VInt", "builtins.bool": "VBool", "builtins.str": "VStr",
+                            "float": "VFloat", "int": "VInt", "bool": "VBool", "str": "VStr"}.get(cl.data)
+                    v = tv.data
+                    if ctor is not None and isinstance(v, SV):
+                        return "((_ is %s) %s)" % (ctor, self.box(v).t)
             raise Unsupported("== on python-level values %r %r" % (a, b))
         ka, kb = a.ty.kind, b.ty.kind
         if ka == "none" and kb == "none":
@@ -528,6 +545,8 @@ class Sem:
                 return ("true" if "dict" in names else "false", None)
             raise Unsupported("isinstance of python-level value %r" % (v,))
         k = v.ty.kind
+        if k == "jrep":
+            return ("((_ is JObj) %s)" % v.t if "dict" in names else "false", None)
         if k == "opt":
             inner = v.ty.args[0]
             t, _ = self.isinstance_term(SV(S.the(inner, v.t), inner), names)
